@@ -269,3 +269,35 @@ Section TheoremsS.
     - intros pl. unfold expected. rewrite Er. apply Hlv.
   Qed.
 End TheoremsS.
+
+(** ** the same about [generate_real] (LoadSchema first) *)
+Lemma generate_real_loadable D S valid d : schema_loadable S = true -> generate_real D S valid d = generate_s S valid d.
+Proof. intros HL. rewrite generate_real_unfold. rewrite (load_schema_roundtrip S HL). reflexivity. Qed.
+
+Theorem real_s_accepts : forall D S d,
+  env S d = true -> schema_loadable S = true -> names_no_dunder S d = true ->
+  exists p, generate_real D S (doc_valid S d) d = GOk p /\
+            cl_struct_members p /\ cl_references p /\ cl_method_forwarders p /\
+            NoDup (map td_name (p_defs p)) /\
+            forallb (fun e : name * list (name * name) => negb (go_keyword (fst e))) (p_enums p) = true /\
+            (forall dfn, In dfn (p_defs p) -> type_syntax_ok (td_type dfn) = true).
+Proof. intros D S d H1 HL H2. rewrite (generate_real_loadable D S _ d HL). apply gen_s_accepts; assumption. Qed.
+
+Theorem real_s_decodes : forall D S d,
+  env S d = true -> schema_loadable S = true -> names_no_dunder S d = true ->
+  forall p o opname w,
+    generate_real D S (doc_valid S d) d = GOk p ->
+    In o (d_ops d) -> op_name o = Some opname -> conforms S o w = true ->
+    exists n v, (forall fuel, (n <= fuel)%nat -> decode_op p fuel opname (json_of w) = DOk v) /\
+                (forall pl, In pl (leaves v) <-> In pl (expected S o w)).
+Proof.
+  intros D S d H1 HL H2 p o opname w Hg. rewrite (generate_real_loadable D S _ d HL) in Hg.
+  apply (gen_s_decodes S d H1 H2 p o opname w Hg).
+Qed.
+
+(** the premise is part of the names-only condition [decl_safe] *)
+Lemma decl_safe_no_dunder S d : decl_safe S d = true -> names_no_dunder S d = true.
+Proof.
+  unfold decl_safe, names_no_dunder. intros H. apply andb_true_iff in H as [H _]. apply andb_true_iff in H as [_ H].
+  rewrite forallb_forall in *. intros x Hx. specialize (H x Hx). apply andb_true_iff in H as [_ H]. exact H.
+Qed.
